@@ -32,9 +32,9 @@ REVIEWED = {
     ("disseminator::rotor::Rotor::sample_relays", "unwrap", "Result::expect"): (1, "seed is the concatenation of four 8-byte arrays = 32 bytes (constant lengths)"),
     (P + "DecayingAcceptanceSampler::sample_one", "index", "Vec<usize>[usize]"): (2, "sample < validators.len() = sample_count.len() (allocated in new/reset)"),
     (P + "DecayingAcceptanceSampler::sample_one", "panic", "panicking::panic_fmt"): (1, "rejection budget MAX_TRIES_PER_SAMPLE"),
-    (P + "FaitAccompli1Sampler::new_with_partition_fallback", "assert", "DivisionByZero"): (1, "divisor is the configured committee size k (> 0 by configuration)"),
+    (P + "FaitAccompli1Sampler::new_with_partition_fallback", "assert", "DivisionByZero"): (2, "divisors: the configured committee size k (> 0 by configuration) and the total stake (> 0 for a validator set with positive stakes, the stated precondition; exact seat count since D23)"),
     (P + "FaitAccompli1Sampler::new_with_partition_fallback", "arith", "sub_assign Stake"): (1, "FLOAT-DEPENDENT (not decided): stake -= floor(f*k)*total/k relies on f64 rounding of stake/total*k not exceeding the exact value"),
-    (P + "FaitAccompli1Sampler::new_with_stake_weighted_fallback", "assert", "DivisionByZero"): (1, "divisor is the configured committee size k (> 0 by configuration)"),
+    (P + "FaitAccompli1Sampler::new_with_stake_weighted_fallback", "assert", "DivisionByZero"): (2, "divisors: the configured committee size k (> 0 by configuration) and the total stake (> 0 for a validator set with positive stakes, the stated precondition; exact seat count since D23)"),
     (P + "FaitAccompli1Sampler::new_with_stake_weighted_fallback", "arith", "sub_assign Stake"): (1, "FLOAT-DEPENDENT (not decided): as above"),
     (P + "FaitAccompli2Sampler::minimize_f", "panic", "panicking::panic"): (1, "assert!(sum of round(f_i*k)/k <= 1.0) fails for many validator sets (e.g. three equal stakes, k = 2; k = 64 with 5, 6, 11, 13.. equal stakes): the constructor panics instead of producing a sampler", "finding"),
     (P + "FaitAccompli2Sampler::new", "index", "Vec<ValidatorInfo>[usize]"): (1, "i enumerates f, which has one entry per validator"),
@@ -54,6 +54,7 @@ REVIEWED = {
     (P + "TurbineSampler::new_with_fanout", "arith", "sub Stake"): (2, "stake_left = total - leader.stake (- root.stake): subtrahends are distinct members of the set summed into total"),
     (P + "TurbineSampler::new_with_fanout", "index", "Vec<f64>[usize]"): (3, "indexed by validator id < validators.len() (EpochInfo::new asserts id == position)"),
     (P + "TurbineSampler::new_with_fanout", "index", "Vec<ValidatorInfo>[usize]"): (1, "i enumerates expected_work, one entry per validator"),
+    (P + "FaitAccompli2Sampler::new", "assert", "DivisionByZero"): (1, "divisor: the total stake (> 0 for a validator set with positive stakes; exact seat count since D23)"),
     (P + "TurbineSampler::new_with_fanout", "assert", "DivisionByZero"): (1, "divisor is the configured fanout (> 0 by configuration)"),
     (P + "TurbineSampler::new_with_fanout", "assert", "RemainderByZero"): (1, "divisor is the configured fanout (> 0 by configuration)"),
     ("disseminator::turbine::weighted_shuffle::WeightedShuffle::new", "panic", "panicking::panic"): (2, "debug assertions on the tree geometry computed by get_num_nodes_and_tree_size (independent of stakes)"),
@@ -321,7 +322,26 @@ def ob_fa1_phase1(run, oid):
                     if f[0] == "bin" and f[1].startswith("Div"):
                         ok = (K.mentions_field(f[2], "stake") and not K.mentions_call(f[2], "sum")
                               and K.mentions_call(f[3], "sum") and K.mentions_arg(b, f[3], 1))
-        o.check(ok, key + "|seats=floor(stake/total*k)", "required seats per validator = floor(v.stake / total_stake * k)", e.span, det)
+        if not floors:
+            # exact form: seats = (stake as u128 * k as u128 / total as u128) as u64 - an integer division IS the floor
+            for x in mir.walk(et):
+                if isinstance(x, tuple) and x and x[0] == "bin" and x[1].startswith("Div"):
+                    num, den = K.peel(x[2]), K.peel(x[3])
+                    while isinstance(num, tuple) and num and num[0] == "cast":
+                        num = K.peel(num[2])
+                    if isinstance(num, tuple) and num and num[0] == "field" and str(num[2]) == "0" and isinstance(num[1], tuple) and num[1][0] == "bin":
+                        num = num[1]        # (a * b).0 of a checked multiplication
+                    if isinstance(num, tuple) and num and num[0] == "bin" and num[1].startswith("Mul"):
+                        sides = [num[2], num[3]]
+                        has_stake = any(K.mentions_field(y, "stake") and not K.mentions_call(y, "sum") for y in sides)
+                        has_k = any(K.mentions_arg(b, y, 2) and not K.mentions_field(y, "stake") for y in sides)
+                        if has_stake and has_k and K.mentions_call(den, "sum") and K.mentions_arg(b, den, 1):
+                            fl = x
+                            ok = True
+        floaty = [x for x in mir.walk(et) if isinstance(x, tuple) and x and ((x[0] == "cast" and "Float" in str(x[1])) or (x[0] == "call" and x[1].rsplit("::", 1)[-1] in ("floor", "round", "ceil", "trunc")))]
+        o.check(ok, key + "|seats=floor(stake/total*k)", "required seats per validator = floor(v.stake * k / total_stake)", e.span, det)
+        o.check(not floaty, key + "|seats|exact-integer-arithmetic", "the seat count is computed in integer arithmetic (the f64 product stake / total * k can land just below an integer: 1/49 * 49 floors to 0)", e.span,
+                {"float steps": len(floaty)})
         zero_start = any(isinstance(x, tuple) and x and x[0] == "const" and x[2] == 0 for x in mir.walk(et)) and K.mentions_call(et, "map")
         o.check(zero_start, key + "|one-id-per-seat", "required_samples.extend((0..seats).map(|_| v.id))", e.span)
         recv = b.operand_term(e.args[0])
